@@ -320,9 +320,32 @@ func (fl *Flow) CondOf(b int) ast.Expr {
 			if st.Cond == last {
 				return last
 			}
+		case *ast.CaseClause:
+			// tagless switch: each case expression is a boolean condition
+			for _, e := range st.List {
+				if e == last && fl.taglessCase(st) {
+					return last
+				}
+			}
 		}
 	}
 	return nil
+}
+
+// taglessCase reports whether the clause belongs to a `switch { ... }` without tag.
+func (fl *Flow) taglessCase(cc *ast.CaseClause) bool {
+	tagless := false
+	ast.Inspect(fl.Body, func(x ast.Node) bool {
+		if sw, ok := x.(*ast.SwitchStmt); ok && sw.Tag == nil {
+			for _, c := range sw.Body.List {
+				if c == ast.Stmt(cc) {
+					tagless = true
+				}
+			}
+		}
+		return !tagless
+	})
+	return tagless
 }
 
 // Fact is an atomic boolean condition known to hold (Truth) at some point.
